@@ -82,6 +82,8 @@ pub const FAIL_KINDS: &[&str] = &[
     "pc-at-parse-time",
     "include-in-macro",
     "label-twice-in-macro",
+    "unsupported-directive",
+    "errors-in-two-memories",
 ];
 
 /// Devices used by generated programs: (name, forbids mul, forbids jmp, avr8l, flash words, ram, eeprom)
@@ -639,9 +641,24 @@ impl<'a> Gen<'a> {
                 l.push(format!("{}: .byte {}", n, sz));
             }
         }
+        self.state_lines_in_another_memory(&mut l);
         l.push(".cseg".to_string());
         self.seg = 0;
         Node::Lines(l)
+    }
+    /// Now and then a register alias or a `.set` is written while the data or EEPROM segment is
+    /// open and used by code further down: pass 2 has to meet the lines of all memories in the
+    /// order they were written.
+    fn state_lines_in_another_memory(&mut self, l: &mut Vec<String>) {
+        if !self.r.chance(1, 3) {
+            return;
+        }
+        let n = if self.r.chance(1, 2) { self.def_block() } else { self.set_block() };
+        if let Node::Lines(x) = n {
+            if x.iter().all(|t| t.starts_with(".def ") || t.starts_with(".undef ") || t.starts_with(".set ")) {
+                l.extend(x);
+            }
+        }
     }
     fn eseg_block(&mut self) -> Node {
         let mut l = vec![".eseg".to_string()];
@@ -665,6 +682,7 @@ impl<'a> Gen<'a> {
                 self.eep_bytes += 4;
             }
         }
+        self.state_lines_in_another_memory(&mut l);
         l.push(".cseg".to_string());
         self.seg = 0;
         Node::Lines(l)
@@ -844,6 +862,19 @@ pub fn gen(r: &mut Rng, pool: &Pool, opts: &GenOpts) -> Program {
                 Node::Macro(vec![format!(".macro d{}l", pool.tag), format!("dl{}:", pool.tag), "    nop".to_string(), format!("dl{}:", pool.tag), "    ret".to_string(), ".endm".to_string()]),
                 Node::Lines(vec![format!("    d{}l", pool.tag)]),
             ],
+            // directives the grammar knows and the builder refuses today (listing control)
+            "unsupported-directive" => vec![Node::Lines(vec![[".nolist", ".list", ".listmac"][g.r.usize(3)].to_string()])],
+            // one error in the code and one in the EEPROM contents: the one written first is
+            // the one reported
+            "errors-in-two-memories" => {
+                let a = Node::Lines(vec![format!("    ldi r16, {}", 300 + g.r.below(100))]);
+                let b = Node::Lines(vec![".eseg".to_string(), format!(".db {}", 300 + g.r.below(100)), ".cseg".to_string()]);
+                if g.r.chance(1, 2) {
+                    vec![a, b]
+                } else {
+                    vec![b, a]
+                }
+            }
             "panics-today" => vec![Node::Lines(vec![match g.r.below(3) {
                 0 => format!("    ldi r{}, 1", 32 + g.r.below(68)),
                 1 => format!(".equ big{} = 9999999999999999999{}", pool.tag, g.r.below(100000)),
